@@ -7,6 +7,8 @@ use std::borrow::Cow;
 pub(crate) struct URLEncodedDeserializer<'de> {
     input: &'de [u8],
     side:  ParsingSide,
+    /// whether the top-level map is not started yet ( the only place where a map can be )
+    top:   bool,
 }
 #[derive(Debug, PartialEq, Clone, Copy)]
 enum ParsingSide {
@@ -16,7 +18,7 @@ enum ParsingSide {
 
 impl<'de> URLEncodedDeserializer<'de> {
     pub(crate) fn new(input: &'de [u8]) -> Self {
-        Self { input, side: ParsingSide::Key }
+        Self { input, side: ParsingSide::Key, top: true }
     }
     pub(crate) fn remaining(&self) -> &'de [u8] {
         &self.input
@@ -84,7 +86,12 @@ impl<'u, 'de> serde::Deserializer<'de> for &'u mut URLEncodedDeserializer<'de> {
 
     fn deserialize_any<V>(self, visitor: V) -> Result<V::Value, Self::Error>
     where V: serde::de::Visitor<'de> {
-        self.deserialize_map(visitor)
+        /* only the whole input is a map; names and values describe themselves as strings */
+        if self.top {
+            self.deserialize_map(visitor)
+        } else {
+            self.deserialize_str(visitor)
+        }
     }
 
     /// when the visitor visits value of unkown key
@@ -100,8 +107,9 @@ impl<'u, 'de> serde::Deserializer<'de> for &'u mut URLEncodedDeserializer<'de> {
     #[inline(always)]
     fn deserialize_map<V>(self, visitor: V) -> Result<V::Value, Self::Error>
     where V: serde::de::Visitor<'de> {
-        #[cfg(debug_assertions)] {
-            assert!(self.side == ParsingSide::Key);
+        /* a map-like type as a name or a value would go on consuming the input of the top-level one */
+        if !std::mem::replace(&mut self.top, false) {
+            return Err(serde::de::Error::custom("nested map-like types are not supported"))
         }
 
         visitor.visit_map(AmpersandSeparated::new(self))
